@@ -27,7 +27,7 @@ for wt in sorted(glob.glob(os.path.join(src, prefix + "C*"))):
         if os.path.exists(os.path.join(wt, f)): shutil.copy(os.path.join(wt, f), d)
     notes = open(os.path.join(d, "NOTES.md")).read() if os.path.exists(os.path.join(d, "NOTES.md")) else ""
     demo = open(os.path.join(d, "demo.c")).read()
-    flags = " ".join(sorted(set(re.findall(r"-DUSE_[A-Z_]+=\d", notes + demo))))
+    flags = " ".join(sorted(set(re.findall(r"-DUSE_[A-Z_]+=\d|-std=(?:c|gnu)(?:89|90|99)", notes + demo))))
     mp = os.path.join(d, "meta.json"); meta = json.load(open(mp)) if os.path.exists(mp) else {}
     meta.update({"breaks_property": prop, "source_worktree": wt, "demo_flags": flags,
                  "produced_by": "independent sub-agent given only the property text and its own scratch worktree of /repo"})
